@@ -612,6 +612,52 @@ void HistSim::opEach(const Op& op, size_t ix) {
   endOp(j, op, ix);
 }
 
+// obj[d] = a prefix of the characters the library itself hands out for obj[s] (string_view / sized JsonString over
+// as<JsonString>().c_str()): the argument points into the document's own string storage
+void HistSim::opFeed(const Op& op, size_t ix) {
+  Ref* h = resolve(op, "h");
+  if (h->view == 'c' || h->view == 'a') {
+    lastSkip = "view";
+    return;
+  }
+  int doc = h->doc;
+  Val* node = findNode(doc, h->node);
+  Sel src = Sel::parse(op.str("s")), dstSel = Sel::parse(op.str("d"));
+  const Val* sv = node->k == K::Obj && src.isKey ? node->member(src.key) : nullptr;
+  if (!sv || sv->k != K::Str || !dstSel.isKey || dstSel.key == src.key) {
+    lastSkip = "kind";
+    return;
+  }
+  size_t cut = std::min<size_t>(size_t(op.unum("cut")), sv->s.size());
+  Val nv = Val::str(sv->s.substr(0, cut), false);
+  Judge j;
+  auto region = pathOf(doc, h->node);
+  region.push_back(dstSel);
+  beginOp(j, doc, region);
+  j.hasReturn = false;
+  Val* slot = mGetOrCreate(*node, dstSel);
+  if (slot)
+    assignContent(*slot, nv);
+  if (real_) {
+    startFaults(op);
+    JsonObject o = h->view == 'o' ? h->o : realVariant(*h).as<JsonObject>();
+    JsonString js = o[JsonString(src.key.data(), src.key.size(), JsonString::Copied)].as<JsonString>();
+    if (!js.isNull()) {
+      Src ks = pickSrc(ix, 0, dstSel.key, false);
+      bool asJs = op.num("kind") == 1;
+      withStr(ks, dstSel.key, arena_, [&](auto&& key) {
+        if (asJs)
+          o[key] = JsonString(js.c_str(), cut, JsonString::Copied);
+        else
+          o[key] = std::string_view(js.c_str(), cut);
+        return 0;
+      });
+      count("op.feed");
+    }
+  }
+  endOp(j, op, ix);
+}
+
 // a string of maxLength-1 / maxLength / maxLength+1 bytes through the API (the limit is a build option)
 void HistSim::opLongSet(const Op& op, size_t ix) {
   Ref* h = resolve(op, "h");
@@ -738,6 +784,8 @@ void HistSim::step(const Op& op, size_t ix) {
     opShared(op, ix);
   else if (name == "peek")
     opPeek(op, ix);
+  else if (name == "feed")
+    opFeed(op, ix);
   else if (name == "each")
     opEach(op, ix);
   else if (name == "longset")
@@ -1041,6 +1089,28 @@ struct Gen {
         return op;
       }
     }
+    if (r.chance(1, 40)) {
+      // characters the library hands out, handed back with another length (a prefix) for another member of the same object
+      std::vector<std::pair<size_t, std::string>> cand;  // ref, key of a member holding a string
+      for (size_t i = 0; i < refs.size() && cand.size() < 32; i++) {
+        if (refs[i]->view == 'c' || refs[i]->view == 'a')
+          continue;
+        const Val* n = sim.nodeOf(*refs[i]);
+        if (n->k == K::Obj)
+          for (auto& m : n->o)
+            if (m.second.k == K::Str && !m.second.s.empty())
+              cand.push_back({i, m.first});
+      }
+      if (!cand.empty()) {
+        auto pick = cand[r.below(cand.size())];
+        const Val* n = sim.nodeOf(*refs[pick.first]);
+        size_t len = n->member(pick.second)->s.size();
+        op = mkop("feed");
+        op.setu("h", pick.first).set("s", Sel::k(pick.second).text()).set("d", Sel::k(genString(r, vo, true)).text());
+        op.setu("cut", r.chance(1, 4) ? len : r.below(len + 1)).set("kind", int64_t(r.below(2)));
+        return op;
+      }
+    }
     if (r.chance(1, 30)) {
       // a string related by an embedded NUL to one a document already holds: its prefix up to the first NUL,
       // or the same characters followed by a NUL and more (lookups that stop at a NUL confuse the two)
@@ -1142,7 +1212,7 @@ struct Gen {
       op = mkop("rem");
       size_t h = r.chance(4, 5) ? (r.chance(1, 2) ? pickRef(0, K::Arr, true) : pickRef(0, K::Obj, true)) : pickRef();
       op.setu("h", h).set("s", pickSel(*sim.nodeOf(*refs[h]), r.chance(5, 6)).text());
-      via(4);
+      via(5);
     } else if (sel < 640) {
       op = mkop("clr");
       op.setu("h", pickRef());
@@ -1362,7 +1432,7 @@ Plan generate(const std::string& mode, uint64_t seed, uint64_t run) {
           if (op.name() == "rem") {
             auto refs = sim.aliveRefs();
             size_t h = g.pickRef();
-            op.setu("h", h).set("s", g.pickSel(*sim.nodeOf(*refs[h]), true).text()).set("via", int64_t(r.below(4)));
+            op.setu("h", h).set("s", g.pickSel(*sim.nodeOf(*refs[h]), true).text()).set("via", int64_t(r.below(5)));
           } else {
             static const char* whats[] = {"clear", "shrink", "shrink", "copy", "swap"};
             std::string w = whats[r.below(sim.ndocs() > 1 ? 5 : 3)];
